@@ -167,6 +167,11 @@ def module_case(c):
 
 def main():
     payload = json.loads(sys.stdin.read())
+    if payload.get("prelude", True):
+        import os as _os
+        sys.path.insert(0, _os.path.dirname(_os.path.abspath(__file__)))
+        from prelude import run_prelude
+        run_prelude()
     out = {"exact": [], "modules": []}
     for c in payload.get("exact", []):
         try:
